@@ -419,15 +419,21 @@ def run(repo: Repo, chk: Check, thorough: bool = False) -> None:
     unpacked = {t.id: k for a in pp.walk() if isinstance(a, ast.Assign) and isinstance(a.targets[0], ast.Tuple) and isinstance(a.value, (ast.Name, ast.Call))
                 for k, t in enumerate(a.targets[0].elts) if isinstance(t, ast.Name)}
 
-    def piece(e: ast.AST) -> Set[int]:
+    from ..util import single_value as _sv13, expanded_text as _xt13
+
+    def piece(e: ast.AST, depth: int = 3) -> Set[int]:
         out = set()
         for x in ast.walk(e):
             if isinstance(x, ast.Subscript) and isinstance(x.slice, ast.Constant) and isinstance(x.slice.value, int):
                 out.add(x.slice.value)
             if isinstance(x, ast.Name) and x.id in unpacked:
                 out.add(unpacked[x.id])
+            elif isinstance(x, ast.Name) and depth > 0:
+                v_ = _sv13(pp, x.id)        # a named intermediate: `level_name = parts[0].strip().upper()`
+                if v_ is not None:
+                    out |= piece(v_, depth - 1)
         return out
-    ok = bool(look) and '.upper()' in norm(look[0].slice) and 'strip()' in norm(look[0].slice) and piece(look[0].slice) == {0}
+    ok = bool(look) and '.upper()' in _xt13(pp, look[0].slice, 3) and 'strip()' in _xt13(pp, look[0].slice, 3) and piece(look[0].slice) == {0}
     chk.ob('R13.3', 'utils.parse_privacy_tuple :: level looked up case-insensitively', ok, norm(look[0]) if look else 'lookup not found', pp.loc)
     rets = [n for n in pp.walk() if isinstance(n, ast.Return) and isinstance(n.value, ast.Tuple)]
     ok = bool(rets) and piece(rets[0].value.elts[1]) == {1}
